@@ -69,3 +69,28 @@ package wire
 //@   modifies g.currentValue
 //@   ensures result == old(g.currentValue) + 1 && g.currentValue == result
 //@   loop 1 invariant g.currentValue == old(g.currentValue)
+
+// ---------------------------------------------------------------- C07: per-stream dispatch
+// A message addressed to a stream alias is offered only to the channel that is
+// registered under exactly that alias at the time it is dispatched (never to a
+// channel remembered from an earlier message), and to no channel when none is.
+
+//@ func (*ClientConn).readUpstreamChunkAckLoop
+//@   props C07
+//@   assert send: has(c.upstreams.acks, v.StreamIDAlias) && ch == c.upstreams.acks[v.StreamIDAlias] && unheld(c.upstreams.mu)
+
+//@ func (*ClientConn).readDownstreamChunkLoop
+//@   props C07
+//@   assert send: has(c.downstreams.dps, v.StreamIDAlias) && ch == c.downstreams.dps[v.StreamIDAlias] && unheld(c.downstreams.mu)
+
+//@ func (*ClientConn).readDownstreamChunkUnreliableLoop
+//@   props C07
+//@   assert send: has(c.downstreams.dpsUnreliable, v.StreamIDAlias) && ch == c.downstreams.dpsUnreliable[v.StreamIDAlias] && unheld(c.downstreams.mu)
+
+//@ func (*ClientConn).readDownstreamChunkAckCompleteLoop
+//@   props C07
+//@   assert send: has(c.downstreams.ackCompletes, v.StreamIDAlias) && ch == c.downstreams.ackCompletes[v.StreamIDAlias] && unheld(c.downstreams.mu)
+
+//@ func (*ClientConn).readDownstreamMetadataLoop
+//@   props C07
+//@   assert send: has(c.downstreams.metadata, v.StreamIDAlias) && has(c.downstreams.metadata[v.StreamIDAlias], v.SourceNodeID) && ch == c.downstreams.metadata[v.StreamIDAlias][v.SourceNodeID]
